@@ -88,6 +88,20 @@ class C02(Prop):
             for s, e, st in itertools.product(bounds, bounds, steps):
                 yield {"op": "loc", "axis": ax, "ix": ["sl", s, e, st], "_src": "strict", "variants": variants}
 
+    def tie_cases(self):
+        """monotonic axes with REPEATED labels (non-strictly increasing / decreasing): still the inclusive bounding box"""
+        steps = [None, 1, 2, -1, -2]
+        for kind in ("i", "f"):
+            for base in ([2, 4, 4, 6], [2, 2, 4], [2, 4, 4], [4, 4], [2, 4, 4, 4, 6]):
+                vals = [Fraction(v) if kind == "i" else Fraction(v) + Fraction(1, 2) for v in base]
+                bounds = [None, Fraction(1)] + sorted(set(vals + [v + Fraction(1, 2) for v in vals])) + [Fraction(9)]
+                for direction in ("inc", "dec"):
+                    labels = vals if direction == "inc" else vals[::-1]
+                    ax = {"name": "x", "kind": kind, "labels": [enc(v) for v in labels], "_order": direction, "_ties": True}
+                    for s, e, st in itertools.product(bounds, bounds, steps):
+                        yield {"op": "loc", "axis": ax, "ix": ["sl", None if s is None else enc(s), None if e is None else enc(e), st],
+                               "_src": "ties", "variants": ["warm"]}
+
     def nd_cases(self, rng, n):
         c1 = c01.PROP
         for _ in range(n):
@@ -203,6 +217,8 @@ class C02(Prop):
         for c in self.grid(5):
             yield c
         for c in self.strict_cases(rng, 50 if tier == "quick" else 600):
+            yield c
+        for c in self.tie_cases():
             yield c
         for c in self.nd_cases(rng, 400 if tier == "quick" else 20000):
             if rng.random() < 0.3:
